@@ -1,9 +1,12 @@
 import SyneTune.Lemmas.TunerStats
+import SyneTune.Lemmas.TunerRows
+import SyneTune.Lemmas.TunerWitnessData
 /-
 C17 — metric statistics (`MetricsStatistics`, `TuningStatus`), best trial
 (`print_best_metric_found`), best row (`ExperimentResult.best_config` via pandas
 `argmin/argmax`) and `metric_name_mode`.
-Property theorems only.  Model: `Model/TuningStatus.lean`; helper lemmas and the vocabulary
+Property theorems only.  Model: `Model/TuningStatus.lean`, `Model/Tuner.lean` (rows of the
+`StoreResultsCallback`, lemmas `Lemmas/TunerRows.lean`); helper lemmas and the vocabulary
 used below are in `Lemmas/TunerStats.lean`:
 
     valsOf k rs    := rs.filterMap (fun m => match alookup k m with | some (.num x) => some x | _ => none)
@@ -404,5 +407,41 @@ example :
     metricNameMode [7, 8, 9] (.one .max) (.byIndex (-4)) = .error .indexError ∧
     indexOf? [7, 8, 9, 8] 8 = some 1 := by
   decide
+
+/-! ### 9. the results log -/
+
+/-- **Rows.** With a `StoreResultsCallback` (`store`), at every point of every run of the loop
+the rows of the results log are, in order, the results delivered to the callbacks
+(`on_trial_result(trial, status, result, decision)` events of the call log, identified by trial,
+position among the results of the trial, decision and status): one row per event, nothing else.
+`tail` is empty except while the event is being delivered (`pc = cbResult`) or — inside the
+`finally` block — when that delivery itself raised. -/
+theorem rows (c : Cfg) (as : List Ans) (hs : c.store = true) :
+    ∃ tail, cbResults (run (init c) as).log = (run (init c) as).rows.map Row.key ++ tail ∧ tail.length ≤ 1 ∧
+      (finPc (run (init c) as).pc = false → (run (init c) as).pc ≠ .cbResult → tail = []) := by
+  obtain ⟨tail, h1, h2, _, h4⟩ := (RowsInv_run c as).rows (by rw [run_cfg]; exact hs)
+  exact ⟨tail, h1, h2, h4⟩
+
+/-- without the callback nothing is recorded -/
+theorem rows_none (c : Cfg) (as : List Ans) (hs : c.store = false) : (run (init c) as).rows = [] :=
+  (RowsInv_run c as).noStore (by rw [run_cfg]; exact hs)
+
+/-- the content of a row: when `on_trial_result` returns, the row appended carries the trial's
+configuration as known to the tuner, the (possibly scheduler-annotated) metrics of the result,
+the decision and the status under which the result was delivered -/
+theorem rows_content (s : LState) (hs : s.cfg.store = true) :
+    (addRow s).rows = s.rows ++ [{ tid := s.cur.tid, rid := s.cur.rid, cfg := alookup s.cur.tid s.configs,
+                                   decision := s.curD, status := s.curSt, m := s.cur.m }] := by
+  unfold addRow; simp [hs]
+
+/-- the rows of the F15 run of `Lemmas/TunerWitnessData.lean` -/
+example :
+    (run (init Witness.f15Cfg) (Witness.f15Prefix ++ Witness.f15Rest)).rows.map Row.key
+      = [(0, 0, .continue, .inProgress), (1, 1, .continue, .completed)] ∧
+    cbResults (run (init Witness.f15Cfg) (Witness.f15Prefix ++ Witness.f15Rest)).log
+      = [(0, 0, .continue, .inProgress), (1, 1, .continue, .completed)] ∧
+    ((run (init Witness.f15Cfg) (Witness.f15Prefix ++ Witness.f15Rest)).rows.map fun r => (r.cfg, r.m))
+      = [(some 0, Witness.m 1 1), (some 1, Witness.m 2 2)] := by
+  decide +kernel
 
 end SyneTune.C17
